@@ -6,12 +6,118 @@ V = "/verif"
 
 # id -> dict(level, technique, text, note, design_ref, thorough(bool))
 CHECKS = {
+    "C01": dict(
+        level="model_checking",
+        technique="bounded exhaustive search over token-prefix states and character strings, complete builtin/operator matrices and pumped 4096-character families in child processes, on the real code in two build profiles; oracle: no unwind, no abnormal exit",
+        text="Every token sequence and character string up to the stated lengths, every builtin x argument shape, every operator x operand pair and ~50 pumped input families up to 4096 characters are pushed through tokenizing, precompiling, evaluation in 12 contexts by shared/mutable/typed entry points and Display/Debug of all results, with overflow checks on and off. A panic is an existential over inputs; exhaustive small scopes plus edge pools plus deep pumping is the strongest statement a bounded search can make about it. Inputs between the enumerated lengths and 4096 characters are covered only by the pumped families.",
+        note="Trusted: the panic hook / catch_unwind and child exit status as the oracle; default 8 MiB main-thread stack for deep inputs; optimised profiles with and without overflow checks stand for dev and release builds; user functions in the contexts do not panic.",
+        design_ref="DESIGN.md section 4, C01",
+    ),
+    "C02": dict(
+        level="exploration",
+        technique="exhaustive enumeration (unranking) of all ASTs up to a node bound x parenthesisation and spacing variants, parsed by the real tree builder and compared with the generating AST",
+        text="All ASTs with up to 3 (quick) / 4 (thorough) operator nodes over the full operator alphabet and up to 4 / 6 over one representative per precedence class are rendered with minimal, full and redundant parentheses and two spacings; the parsed tree must equal the AST. Covers every ordered pair and triple of operators, which is where precedence/associativity slips live; deeper nestings rely on the class argument.",
+        note="Trusted: the README precedence table as encoded in the minimal-parentheses renderer (mc/src/refmodel/ast.rs); exclusions exactly as the property's quantifier states.",
+        design_ref="DESIGN.md section 4, C02",
+    ),
     "C03": dict(
         level="exploration",
-        technique="exhaustive enumeration of the complete operator x operand-pool^2 matrix on the real evaluator against an i128/f64 reference table",
-        text="Every operator is run on every ordered pair of a 76-value edge pool (all six value types; i64 extremes and neighbours, 2^53/2^63 boundaries, signed zeros, subnormals, infinities, NaN, non-ASCII strings, nested/empty tuples) through three routes (variables, literals, op-assign) in two build profiles (overflow checks on and off) and compared with an independent reference. Complete for the pool, so any per-operator or per-type-pair slip is found; values outside the pool are not covered.",
+        technique="exhaustive enumeration of the complete operator x operand-pool^2 matrix on the real evaluator against an i128/f64 reference table, in two build profiles",
+        text="Every operator is run on every ordered pair of a 76-value edge pool (all six value types; i64 extremes and neighbours, 2^53/2^63 boundaries, signed zeros, subnormals, infinities, NaN, non-ASCII strings, nested/empty tuples) through three routes (variables, literals, op-assign) with overflow checks on and off and compared with an independent reference. Complete for the pool, so any per-operator or per-type-pair slip is found; values outside the pool are not covered.",
         note="Trusted: the reference table mc/src/refmodel/ops.rs; Rust's f64 arithmetic and powf (same libm on both sides). Accepted both ways: MIN % -1, int/float ordering beyond 2^53, ==/!= on NaN and signed zero.",
         design_ref="DESIGN.md section 4, C03",
+    ),
+    "C04": dict(
+        level="model_checking",
+        technique="explicit-state breadth-first search (stateright) whose transition function is the real HashMapContext API run in lock-step with an abstract map model; plus unmerged depth-3 histories",
+        text="All reachable abstract states of a HashMapContext over 2 names x 12 values x 2 function slots x the builtin switch, every operation in every state (set_value, expression assignments with all 9 assignment operators, clears, set_function, switch, clone), return value and full observation compared with the model after each transition; closed sub-machine to closure, op-assign machine to the fixpoint of a magnitude box (thorough). This is the finite-state protocol case model checking is made for.",
+        note="Trusted: the abstract map model (RCtx in mc/src/refmodel/interp.rs); state merging by observation (hidden state is covered by the unmerged-history pass to its depth only).",
+        design_ref="DESIGN.md section 4, C04",
+    ),
+    "C05": dict(
+        level="exploration",
+        technique="exhaustive enumeration of all `,`/`;` separator skeletons x element fillings (incl. nested groups), real tree and evaluation compared with a reference tree and interpreter",
+        text="Every skeleton of up to 4 (quick) / 6 (thorough) separators with every filling from absent / literal / assignment / read / op-assign, nested parenthesised sequences in every slot, and the same as call arguments; tree shape, value, final context and call log are compared. The sequence logic depends only on the local pattern of separators and parentheses, which these bounds cover completely.",
+        note="Trusted: the split-at-`;`-then-`,` reference and the reference interpreter.",
+        design_ref="DESIGN.md section 4, C05",
+    ),
+    "C06": dict(
+        level="exploration",
+        technique="exhaustive enumeration of strings over small hostile alphabets (quoted texts, raw sources, numeric-alphabet strings, words) and of integer/double pools x renderings x embeddings, against an independent lexer/classifier",
+        text="All texts up to 4/5 characters over a 16-character alphabet quoted and embedded, all raw quote-led sources up to 6/8, all integers below 2^14/2^17 in three spellings plus power boundaries, all strings up to 6/7 characters over the numeric alphabet, ~1500-4500 doubles in up to 9 renderings and 12 embeddings, all words up to 3/4 over 21 characters. Token assembly is character-local, so short exhaustive alphabets reach every branch of it.",
+        note="Trusted: mc/src/refmodel/lexer.rs; Rust's str::parse::<f64> as the correctly rounded conversion. Known finding F10 (inf/nan words) is reported as KNOWN-FINDING.",
+        design_ref="DESIGN.md section 4, C06",
+    ),
+    "C07": dict(
+        level="exploration",
+        technique="exhaustive enumeration of token sequences x separator assignments per gap (25 White_Space code points, comments, mixtures, empty), differential against the single-space rendering; admissibility decided by a reference lexer",
+        text="Every token sequence up to 3 (quick) / 4 (thorough) tokens over a 35-token alphabet, each gap ranging over a 38-entry separator menu while the others cycle, plus all gaps jointly over a core menu; equal trees or equal errors required. Separator handling is local to a gap and its two neighbours, so length-3/4 sequences with every menu entry at every gap cover it.",
+        note="Trusted: the reference lexer for admissibility (fusing renderings are skipped, never reported).",
+        design_ref="DESIGN.md section 4, C07",
+    ),
+    "C08": dict(
+        level="model_checking",
+        technique="exhaustive program enumeration x initial contexts on the real HashMapContext, and deviation-bounded depth-first exploration of environment answers (scripted Context) per program, against a reference interpreter incl. the ordered trace of context interactions",
+        text="All programs up to 3 operator nodes over an effectful alphabet (assignments, op-assigns, recording and failing calls, failing atoms, tuples, chains) in 3 contexts, and per program every script of context answers with up to 2 deviations (unbound / wrong-type reads, failing / missing / substituted functions, failing / lossy writes). Result, final variables, call log and the exact interaction sequence are compared, so reordered, repeated, skipped or rolled-back evaluation steps are all visible.",
+        note="Trusted: the reference interpreter. Not compared: an op-assign whose right-hand side assigns to its own target (two documented readings).",
+        design_ref="DESIGN.md section 4, C08",
+    ),
+    "C09": dict(
+        level="model_checking",
+        technique="explicit enumeration of all configuration histories (switch / clone / clear / define) up to a depth from an empty context x 52 names x 12 call forms, against a reference resolution model",
+        text="For every builtin name and three non-builtin names, every history of up to 4 (quick) / 6 (thorough) operations over disable, enable, clone, clear_functions, clear_variables, define function, bind variable, plus the two fixed-policy contexts; 12 call forms evaluated in each configuration, with the user function recording its argument. The configuration matrix is finite and is enumerated completely (guarded: all 8 switch x function x variable combinations reached for every name).",
+        note="Trusted: reference resolution order (context function, then builtin if enabled, else unknown) and the C10 builtin table for builtin results.",
+        design_ref="DESIGN.md section 4, C09",
+    ),
+    "C10": dict(
+        level="exploration",
+        technique="exhaustive enumeration of the complete 49-builtin x argument-shape matrix (arity 0..3 over an edge-value pool) against a reference builtin table, in two build profiles",
+        text="Every builtin on Empty, every pool value, every ordered pair of the 76-value pool and every ordered triple of a sub-pool (complete pool^3 in the thorough tier), bit-exact against a reference table written from the README, plus all index pairs of str::substring on non-ASCII subjects with the len/substring consistency oracle.",
+        note="Trusted: mc/src/refmodel/builtins.rs; same libm on both sides. Unclaimed as the property says: shifts outside 0..63, min/max with NaN, Empty needles, byte-vs-character unit of len.",
+        design_ref="DESIGN.md section 4, C10",
+    ),
+    "C11": dict(
+        level="model_checking",
+        technique="exhaustive program enumeration x contexts; shared-context, mutable-on-clone and no-storage evaluations of each program compared with each other and with a reference interpreter in immutable / mutable / no-storage mode",
+        text="All programs up to 2 (quick) / 3 (thorough) operator nodes of the C08 alphabet in 3 contexts: eval_with_context (tree and string), eval_with_context_mut on a clone, on a context with the default set_value, and on the two empty contexts; direct differential for assignment-free programs, projection to ContextNotMutable otherwise, context observation before and after.",
+        note="Trusted: the reference interpreter; an immutable op-assign whose read or operator would fail may report either error.",
+        design_ref="DESIGN.md section 4, C11",
+    ),
+    "C12": dict(
+        level="model_checking",
+        technique="exhaustive enumeration of token sequences x 10 contexts x all 48 entry points + build_operator_tree; each typed result compared with the projection of the untyped one, tree level with string level, context-free with fresh context, repeated runs",
+        text="Every token sequence up to 4 (quick) / 5 (thorough) tokens over an alphabet reaching all six result types and every error stage, in 10 contexts, through all 24 string-level entry points (twice), all 24 Node methods and build_operator_tree. A copy-paste slip in any wrapper shows on the first input whose untyped result distinguishes it; all value types and errors occur (guarded).",
+        note="Trusted: the projection rules written from the property statement.",
+        design_ref="DESIGN.md section 4, C12",
+    ),
+    "C13": dict(
+        level="model_checking",
+        technique="depth-first search over all token-prefix states up to a length over a class-representative alphabet on the real tokenizer/tree builder/evaluator, classified by an independent recursive-descent recogniser",
+        text="Every token sequence up to 7 (quick) / 8 (thorough) tokens over 12 class representatives and up to 4 / 5 over all 34 operator tokens; unbalanced input must be rejected, balanced input never reported unbalanced, ill-formed input must not evaluate successfully in any of 5 generous contexts.",
+        note="Trusted: mc/src/refmodel/recogniser.rs as the definition of well-formedness; arity-correct trees that merely never evaluate are counted, not reported.",
+        design_ref="DESIGN.md section 4, C13",
+    ),
+    "C14": dict(
+        level="exploration",
+        technique="exhaustive enumeration of ASTs and sequence shapes with identifiers in every position; 5+5 iterators against the AST's occurrence list; every name swap through the mutable iterators and the context",
+        text="All ASTs up to 3 (quick) / 4 (thorough) operator nodes plus sequence-shaped ASTs (n-ary nodes, absent elements, `()`, nesting): iterator output equals the source-order occurrence list by class, mutable variants visit the same, unknown-identifier errors name listed identifiers, and every swap of two variable or function names (or with a fresh name) commutes with evaluation.",
+        note="Trusted: occurrence list from the generating AST; ASTs whose tree differs are skipped here (guarded to be zero) and belong to C02/C05.",
+        design_ref="DESIGN.md section 4, C14",
+    ),
+    "C15": dict(
+        level="model_checking",
+        technique="stateless exploration of thread interleavings with iterative preemption bounding (own baton scheduler over real OS threads, scheduling points in harness-owned user functions); Send+Sync half decided by the type checker in a probe crate",
+        text="9 workloads of 2-3 threads sharing one Arc<Node> and one Arc<HashMapContext> (same tree, different trees, failing and succeeding evaluations mixed, string-level evaluation, per-thread mutable clones, clone/format/iterate while evaluating); every schedule with up to 2 preemptions (quick), up to 3 and unbounded for 2 threads (thorough); each thread's result and own call log must equal its sequential run. The compile probe instantiates Send + Sync for the 8 public types.",
+        note="Trusted: #![forbid(unsafe_code)] (asserted) for the absence of data races proper; races whose window contains no scheduling point and weak-memory effects are not explored. loom/shuttle are not used: evalexpr contains no sync primitive to intercept and both would make correct thread-local state look racy.",
+        design_ref="DESIGN.md section 4, C15",
+    ),
+    "C16": dict(
+        level="model_checking",
+        technique="depth-first search over token/character prefixes encoded as RON strings and decoded as Node, and over API histories of HashMapContext serialized and deserialized with ron; oracle build_operator_tree / the context itself",
+        engine="evx-mc-serde",
+        text="Every token sequence up to 5 (quick) / 6 (thorough) tokens and every hostile character string up to 4 / 5 characters through ron encode -> Node decode (Ok trees equal, Err messages equal), and every context reachable by histories of depth 2 / 3 over set_value (3 names x 28 values of all types incl. signed zero, subnormals, infinities, NaN, nested tuples, hostile strings), clear, set_function, switch, expression assignments: same variables bit-exactly, same switch, no functions.",
+        note="Trusted: ron 0.8.1 (a float or string enters only if ron alone round-trips it). If the harness stops compiling on the Serialize/Deserialize bounds of HashMapContext/Value while evalexpr compiles, the driver reports that as the violation.",
+        design_ref="DESIGN.md section 4, C16",
     ),
 }
 
